@@ -167,6 +167,10 @@ class C02(CtxCheck):
 
         labels: dict[int, str] = {}
 
+        class FalsyA(A):
+            def __len__(self) -> int:
+                return 0
+
         def mk(cls: type, label: str) -> Any:
             v = cls(label)
             labels[id(v)] = label
@@ -189,7 +193,7 @@ class C02(CtxCheck):
                     # something published later must not become visible in the child
                     surrounding.add_resource(mk(A, "late:" + where), "late")
                     for tname, T in (("A", A), ("B", B)):
-                        for name in ("default", "x", "pre", "late", "fsync"):
+                        for name in ("default", "x", "pre", "late", "fsync", "falsy"):
                             exp = expected.get((tname, name))
                             if name == "fsync" and tname == "B":
                                 continue
@@ -217,6 +221,44 @@ class C02(CtxCheck):
                     if got_all != expected:
                         env.fail("visible", f"{where}: get_resources in the child {got_all} != snapshot of the surrounding context {expected}")
 
+            # first: the component's own view (current context = its ComponentContext) through every lookup path, optional and strict
+            cur = ac.current_context()
+            for tname, T in (("A", A), ("B", B)):
+                for name in ("default", "x", "pre", "fsync", "falsy", "nothing"):
+                    exp = expected.get((tname, name))
+                    if name == "fsync" and tname == "B":
+                        continue
+                    paths_ = [("s_nowait?", lambda: ac.get_resource_nowait(T, name, optional=True)),
+                              ("m_nowait?", lambda: cur.get_resource_nowait(T, name, optional=True)),
+                              ("s_async?", lambda: ac.get_resource(T, name, optional=True)),
+                              ("m_async?", lambda: cur.get_resource(T, name, optional=True)),
+                              ("inj_sync?", lambda: injected(tname, name, True, False)()),
+                              ("inj_async?", lambda: injected(tname, name, True, True)()),
+                              ("s_nowait", lambda: ac.get_resource_nowait(T, name)),
+                              ("m_nowait", lambda: cur.get_resource_nowait(T, name)),
+                              ("inj_sync", lambda: injected(tname, name, False, False)())]
+                    if exp is not None:
+                        # (a strict asynchronous lookup of something absent would wait for a sibling: only asked when present)
+                        paths_ += [("s_async", lambda: ac.get_resource(T, name)), ("m_async", lambda: cur.get_resource(T, name)),
+                                   ("inj_async", lambda: injected(tname, name, False, True)())]
+                    for api, fn in paths_:
+                        try:
+                            r = fn()
+                            if hasattr(r, "__await__"):
+                                r = await r
+                        except ac.ResourceNotFound:
+                            r = "ResourceNotFound"
+                        except BaseException as e:  # noqa: BLE001
+                            r = repr(e)
+                        got = labels.get(id(r), r) if r is not None else None
+                        want = exp if (exp is not None or api.endswith("?")) else "ResourceNotFound"
+                        if got != want:
+                            env.fail("visible", f"{where}: inside the component {api}({tname}, {name!r}) gave {got!r}; the surrounding context has {exp!r}")
+                for how, lister in (("shortcut", lambda: ac.get_resources(T)), ("method", lambda: cur.get_resources(T))):
+                    got_l = {n: labels.get(id(v)) for n, v in lister().items()}
+                    exp_l = {n: v for (t, n), v in expected.items() if t == tname}
+                    if got_l != exp_l:
+                        env.fail("visible", f"{where}: get_resources({tname}) ({how}) inside the component = {got_l}, the surrounding context has {exp_l}")
             if p["nest"]:
                 async with Context() as mid:
                     if mid.parent is not surrounding:
@@ -245,6 +287,7 @@ class C02(CtxCheck):
             async def prepare(self) -> None:
                 ac.add_resource(mk(A, "root:prepare"), "default")
                 ac.add_resource(mk(B, "root:prepare:B"), "x")
+                ac.add_resource(mk(FalsyA, "root:prepare:falsy"), "falsy", A)  # a resource value that is falsy is still a resource
                 await probe("root.prepare")
 
             async def start(self) -> None:
